@@ -97,7 +97,7 @@ func c27(c *Ctx) {
 		}
 		isFin := func(v ssa.Value) bool { return v == fins[0].(ssa.Value) }
 		charged := Calls(cps).Where("the packet returned by finish ("+k.name+")", func(in ssa.Instruction) bool {
-			return DependsOn(in.(*ssa.Call).Call.Args[3], isFin)
+			return DependsOn(BaselineArgs(&in.(*ssa.Call).Call)[3], isFin)
 		})
 		edges := QaNilEdgesOn(fn, isFin)
 		desc := "the branch on which finish returned nil"
@@ -224,7 +224,7 @@ func qaC27padding(c *Ctx, ms string) {
 	}
 	var appends []*ssa.Call
 	for _, s := range sends {
-		Backward(s.(*ssa.Call).Call.Args[1], func(v ssa.Value) bool {
+		Backward(BaselineArgs(&s.(*ssa.Call).Call)[1], func(v ssa.Value) bool {
 			if call, ok := v.(*ssa.Call); ok {
 				if b, ok := call.Call.Value.(*ssa.Builtin); ok && b.Name() == "append" {
 					appends = append(appends, call)
